@@ -17,7 +17,8 @@ from vlib import *
 import vlib
 
 HOOK_DEP = '"minijinja-autoreload/verif_hooks"'
-POINTS = {1: "request:set-flag", 2: "request:notify+return", 3: "acquire:lock-cache", 4: "acquire:should_reload",
+POINTS = {11: "freshness-callback:return", 12: "on-should-reload-callback:return", 13: "BLOCKED on the notifier mutex before",
+          1: "request:set-flag", 2: "request:notify", 3: "acquire:lock-cache", 4: "acquire:should_reload",
           5: "acquire:reset-flag", 6: "acquire:fast_reload?", 7: "creator:start", 8: "creator:end",
           9: "acquire:restore-flag", 10: "guard:drop"}
 
@@ -122,42 +123,45 @@ def jobs_for(chk):
 # one batch of harness work, executed in a worker process
 # ----------------------------------------------------------------------------------------------
 def direct_check(events):
-    """The property on the implementation's observations only.  Returns list of violated clauses."""
-    nset = 0
+    """The property on the implementation's observations only (no model, no flag): a requester publishes source
+    version k (event REQ_SET carries k) and then calls request_reload(); once that call has returned (g == -2),
+    every acquire_env that starts afterwards must hand out an environment whose template shows a source version >= k.
+    Returns list of violated clauses."""
     pend = {}
     retmax = 0
     need = {}
     held = None
     bad = []
-    for (t, p, a, g, v) in events:
+    for (t, p, a, g, v, w) in events:
         if p == 1:
-            nset += 1
-            pend[t] = nset
-        elif p == 2:
+            pend[t] = a
+        if g == -2:
             retmax = max(retmax, pend.get(t, 0))
-        elif p == 3:
+        if p == 3:
             need[t] = retmax
         elif p == 7 and held is not None:
             bad.append("guard_excludes: creator started while a guard was held")
         if p == 10:
-            if held != (t, g, v):
-                bad.append("guard_excludes: guard of thread %d dereferenced to (gen %d, version %d) at drop, acquired %s" % (t, g, v, held))
+            if held != (t, g, v, w):
+                bad.append("guard_excludes: guard of thread %d dereferenced to (gen %d, requests %d, source version %d) at drop, acquired %s" % (t, g, v, w, held))
             held = None
         elif g > 0:
             if held is not None:
                 bad.append("guard_excludes: environment handed out while another guard was held")
-            held = (t, g, v)
-            if v < need.get(t, 0):
-                bad.append("no_lost_request: thread %d was handed generation %d reflecting %d request(s) although request #%d had returned before its acquire_env started" % (t, g, v, need[t]))
+            held = (t, g, v, w)
+            if w < need.get(t, 0):
+                bad.append("no_lost_request: thread %d was handed generation %d showing source version %d although the request_reload for version %d had returned before its acquire_env started" % (t, g, w, need[t]))
     return bad
 
 
 def classify(events):
-    """where requests landed; is the run non-trivial (a request took effect while the cache mutex was held)"""
+    """where requests took effect / were attempted; a run is non-trivial when at least one of them is not 'idle'"""
     holder = None
     last = 0
     where = []
-    for (t, p, a, g, v) in events:
+    for (t, p, a, g, v, w) in events:
+        if p == 13:
+            where.append("blocked on the notifier mutex (other thread inside a callback): " + POINTS.get(a, str(a)))
         if p == 1:
             if holder is None:
                 where.append("idle")
@@ -165,17 +169,16 @@ def classify(events):
                 where.append("inside-creator(same thread)")
             else:
                 where.append({3: "after-lock", 4: "after-check", 5: "after-flag-reset", 6: "after-fast-check", 7: "during-creator",
-                              8: "after-creator", 9: "after-restore"}.get(last, "guard-held" if last in (4, 6, 8) else "held"))
+                              8: "after-creator", 9: "after-restore", 11: "after-check", 12: "after-check", 40: "guard-held"}.get(last, "guard-held"))
         if p == 3:
             holder = t
             last = 3
-        elif holder == t and p in (4, 5, 6, 7, 8, 9):
+        elif holder == t and p in (4, 5, 6, 7, 8, 9, 11, 12):
             last = p
             if g > 0:
                 last = 40  # guard out
         if p == 10 or g == -1:
             holder = None
-    where = ["guard-held" if w == "held" else w for w in where]
     return where
 
 
@@ -227,7 +230,7 @@ def work(job):
         case = [int(x) for x in r[0].split()]
         ev = [int(x) for x in r[1].split()]
         tot = [int(x) for x in r[2].split()]
-        events = [tuple(ev[4 + 5 * k: 9 + 5 * k]) for k in range(ev[3])]
+        events = [tuple(ev[4 + 6 * k: 10 + 6 * k]) for k in range(ev[3])]
         m = [int(x) for x in mo[i].split()]
         s = [int(x) for x in so[i].split()]
         res["runs"] += 1
@@ -240,8 +243,9 @@ def work(job):
         if bad or sbad:
             if len(res["viol"]) < 3:
                 res["viol"].append({"case": case, "events": events, "direct": bad, "spec": sbad})
-        # Python and Coq evaluate the same clauses 1 and 2: they must agree
-        if (any(b.startswith("no_lost") for b in bad) != ("no_lost_request" in sbad)) or (any(b.startswith("guard") for b in bad) != ("guard_excludes" in sbad)):
+        # Python and Coq evaluate the same guard clause: they must agree (no_lost_request is evaluated on different
+        # observations: source versions here, request counts in Spec.v)
+        if any(b.startswith("guard") for b in bad) != ("guard_excludes" in sbad):
             if len(res["incons"]) < 3:
                 res["incons"].append({"case": case, "direct": bad, "spec": sbad})
         ok_model = (m[:1] == [0]) and tot[0] == m[1] + m[2] and tot[1] == m[3]
@@ -250,11 +254,11 @@ def work(job):
         where = classify(events)
         hkey = hashlib.sha256(r[0].encode()).digest()[:8]  # configuration + complete schedule (determines the trace)
         res["distinct"].add(hkey)
-        if any(w != "idle" for w in where):
+        if any(w != "idle" for w in where):  # incl. blocked attempts
             res["nontrivial"].add(hkey)
         H = res["hist"]
         for w in where:
-            H["request lands: " + w] += 1
+            H[("request lands: " + w) if not w.startswith("blocked") else w] += 1
         H["events/run: %d-%d" % (len(events) // 10 * 10, len(events) // 10 * 10 + 9)] += 1
         H["creator calls/run: %d" % (m[1] if m[:1] == [0] else -1)] += 1
         nerr = sum(1 for e in events if e[3] == -1)
@@ -283,19 +287,29 @@ def readable(sample, note=None):
     ns = case[i]
     sched = case[i + 1:i + 1 + ns]
     evs = []
-    for (t, p, a, g, v) in sample["events"]:
-        s = "T%d %s" % (t, POINTS.get(p, p))
+    for (t, p, a, g, v, w) in sample["events"]:
+        x = "T%d %s" % (t, POINTS.get(p, p))
+        if p == 13:
+            x += " " + str(POINTS.get(a, a))
+        if p == 1:
+            x += " (source version %d published)" % a
         if p == 4 and a:
-            s += " (freshness callback: %s)" % ("stale" if a == 2 else "fresh")
+            x += " (now inside the freshness callback, notifier mutex held)"
+        if p in (2, 11) and a >= 4:
+            x += " (now inside the on-should-reload callback, notifier mutex held)"
+        if p == 11:
+            x += " (answer: %s)" % ("stale" if a % 4 == 2 else "fresh")
         if p == 7:
-            s += " (generation %d)" % a
+            x += " (generation %d)" % a
         if p == 8:
-            s += " (Ok)" if a else " (Err)"
+            x += " (Ok)" if a else " (Err)"
         if g == -1:
-            s += " -> acquire_env returns Err"
+            x += " -> acquire_env returns Err"
+        elif g == -2:
+            x += " -> request_reload returns"
         elif g > 0:
-            s += " -> %s env generation %d reflecting %d request(s)" % ("guard still on" if p == 10 else "acquire_env returns", g, v)
-        evs.append(s)
+            x += " -> %s env generation %d reflecting %d request(s), source version %d" % ("guard still on" if p == 10 else "acquire_env returns", g, v, w)
+        evs.append(x)
     d = {"config": describe_cfg(fast, fresh, oncb, cre, th), "schedule": sched, "trace": evs}
     if note:
         d["note"] = note
